@@ -7,6 +7,10 @@ use std::sync::Arc;
 pub fn run(kind: &str, i: &Input) -> String {
     match kind {
         "vm_op" => vm_op(i),
+        "types_words" => types_words(i),
+        "types_bytes" => types_bytes(i),
+        "types_roundtrip" => types_roundtrip(i),
+        "types_node_edges" => types_node_edges(i),
         _ => format!("unknown_kind={kind}\n"),
     }
 }
@@ -124,4 +128,92 @@ fn vm_op(i: &Input) -> String {
     }
     out += &format!("stack={}\nmemory={}\npc={}\nhalt={}\n", fmt_words(&vm.stack), fmt_words(&vm.memory), vm.pc, vm.halt);
     out
+}
+
+use essential_types::predicate::{Node, Predicate};
+use essential_types::solution::{decode::decode_mutations, encode::encode_mutations, Mutation};
+
+fn fmt_mutation(m: &Mutation) -> String {
+    format!("[{}|{}]", fmt_words(&m.key), fmt_words(&m.value))
+}
+
+fn types_words(i: &Input) -> String {
+    let ws = words(get(i, "words"));
+    match get(i, "fn") {
+        "decode_mutation" => match Mutation::decode_mutation(&ws) {
+            Ok(m) => format!("result=ok\nvalue={}\n", fmt_mutation(&m)),
+            Err(e) => format!("result=err\nerr={e:?}\n"),
+        },
+        "decode_mutations" => match decode_mutations(&ws) {
+            Ok(ms) => format!("result=ok\nvalue={}\n", ms.iter().map(fmt_mutation).collect::<Vec<_>>().join(";")),
+            Err(e) => format!("result=err\nerr={e:?}\n"),
+        },
+        f => format!("unknown_fn={f}\n"),
+    }
+}
+
+fn fmt_predicate(p: &Predicate) -> String {
+    let nodes: Vec<String> = p.nodes.iter().map(|n| format!("{}:{}", n.edge_start, fmt_bytes(&n.program_address.0))).collect();
+    let edges: Vec<String> = p.edges.iter().map(|e| e.to_string()).collect();
+    format!("nodes={}\nedges={}\n", nodes.join(";"), edges.join(" "))
+}
+
+fn types_bytes(i: &Input) -> String {
+    let bs = bytes(get(i, "bytes"));
+    match Predicate::decode(&bs) {
+        Ok(p) => format!("result=ok\n{}", fmt_predicate(&p)),
+        Err(e) => format!("result=err\nerr={e:?}\n"),
+    }
+}
+
+pub fn parse_predicate(i: &Input) -> Predicate {
+    // nodes=es:b0 b1 ..;es:..   edges=e0 e1
+    let mut nodes = vec![];
+    for n in get(i, "nodes").split(';').filter(|s| !s.trim().is_empty()) {
+        let (es, addr) = n.split_once(':').unwrap();
+        let mut a = [0u8; 32];
+        for (k, b) in bytes(addr).into_iter().enumerate().take(32) { a[k] = b; }
+        nodes.push(Node { edge_start: es.trim().parse().unwrap(), program_address: ContentAddress(a) });
+    }
+    let edges = get(i, "edges").split_whitespace().map(|e| e.parse::<u16>().unwrap()).collect();
+    Predicate { nodes, edges }
+}
+
+pub fn parse_mutations(s: &str) -> Vec<Mutation> {
+    // [k k|v v];[..]
+    s.split(';').filter(|m| !m.trim().is_empty()).map(|m| {
+        let m = m.trim().trim_start_matches('[').trim_end_matches(']');
+        let (k, v) = m.split_once('|').unwrap();
+        Mutation { key: words(k), value: words(v) }
+    }).collect()
+}
+
+fn types_roundtrip(i: &Input) -> String {
+    match get(i, "fn") {
+        "predicate" => {
+            let p = parse_predicate(i);
+            let enc: Vec<u8> = match p.encode() { Ok(it) => it.collect(), Err(e) => return format!("result=encode_err\nerr={e:?}\n") };
+            let size = p.encoded_size();
+            let dec = Predicate::decode(&enc);
+            let same = matches!(&dec, Ok(q) if *q == p);
+            format!("result=ok\nencoded={}\nencoded_len={}\nencoded_size={}\nroundtrip_equal={}\n", fmt_bytes(&enc), enc.len(), size, same)
+        }
+        "mutations" => {
+            let ms = parse_mutations(get(i, "mutations"));
+            let enc: Vec<i64> = encode_mutations(&ms).collect();
+            let dec = decode_mutations(&enc);
+            let same = matches!(&dec, Ok(q) if *q == ms);
+            format!("result=ok\nencoded={}\nroundtrip_equal={}\n", fmt_words(&enc), same)
+        }
+        f => format!("unknown_fn={f}\n"),
+    }
+}
+
+fn types_node_edges(i: &Input) -> String {
+    let p = parse_predicate(i);
+    let ix: usize = get(i, "ix").parse().unwrap();
+    match p.node_edges(ix) {
+        None => "result=none\n".into(),
+        Some(s) => format!("result=some\nedges={}\n", s.iter().map(|e| e.to_string()).collect::<Vec<_>>().join(" ")),
+    }
 }
